@@ -156,6 +156,7 @@ func CheckMain(args []string) int {
 }
 
 type unitRun struct {
+	eng     *Engine
 	unit    *UnitSpec
 	results []*EntryResult
 	load    time.Duration
@@ -228,7 +229,7 @@ func runCheck(root, repo string, spec *CheckSpec, tier string, seed int, only st
 			eng.TimeoutMS = 60000
 			eng.CrossEach = 1
 		}
-		ur := &unitRun{unit: u, load: eng.LoadTime}
+		ur := &unitRun{unit: u, load: eng.LoadTime, eng: eng}
 		for _, es := range u.Entries {
 			if only != "" && es.Func != only {
 				continue
@@ -260,6 +261,8 @@ func runCheck(root, repo string, spec *CheckSpec, tier string, seed int, only st
 	var knownLines []string
 	cexN := 0
 	replayed := 0
+	pinnedSeen := map[string]int{}
+	pinnedReported := map[string]bool{}
 	for _, ur := range runs {
 		var fresh []*Violation
 		for _, res := range ur.results {
@@ -282,6 +285,48 @@ func runCheck(root, repo string, spec *CheckSpec, tier string, seed int, only st
 				}
 			}
 		}
+		if len(fresh) == 0 {
+			continue
+		}
+		// entries whose environment cannot be built natively: pinned re-execution
+		var native []*Violation
+		for _, v := range fresh {
+			var cfg *EntryCfg
+			for _, res := range ur.results {
+				if res.Cfg.Func == v.Entry {
+					cfg = res.Cfg
+				}
+			}
+			if cfg != nil && cfg.NativeReplay != nil && !*cfg.NativeReplay && ur.eng != nil {
+				if pinnedSeen[v.Label] >= 3 {
+					continue
+				}
+				pinnedSeen[v.Label]++
+				cexN++
+				p := filepath.Join(outDir, fmt.Sprintf("cex-%d.json", cexN))
+				b, _ := json.MarshalIndent(v, "", " ")
+				os.WriteFile(p, b, 0o644)
+				ok, msg := ur.eng.ReplayPinned(cfg, v)
+				replayed++
+				if ok {
+					if !pinnedReported[v.Label] {
+						fmt.Printf("VIOLATION property=%s replay=%s\n", spec.ID, p)
+						fmt.Printf("  label=%s entry=%s at %s (no native environment for this entry: %s)\n  model: %s\n  notes: %s\n", v.Label, v.Entry, v.Where, msg, fmtModel(v.Model), strings.Join(v.Notes, " "))
+					}
+					pinnedReported[v.Label] = true
+					nViol++
+					exit = 1
+				} else if !pinnedReported[v.Label] {
+					fmt.Printf("ENCODING-MISMATCH property=%s label=%s: %s\n", spec.ID, v.Label, msg)
+					if exit == 0 {
+						exit = 2
+					}
+				}
+				continue
+			}
+			native = append(native, v)
+		}
+		fresh = native
 		if len(fresh) == 0 {
 			continue
 		}
